@@ -4,7 +4,7 @@ META = {
     "category": "proof",
     "text": "Lean 4 theorems over an executable model of Insert / Update / Delete / Replace / AddColumns / DropColumns / RenameColumn written in the shape of lib/query/query.go and view.go (copy with internal record ids, filtered view, write-back by id, the 'value ambiguous' rule, first-match REPLACE, index-placed ADD): for ALL tables, field lists, value lists, conditions and expressions (arbitrary functions Row -> Except Err _) INSERT = old rows ++ given rows (column mapping by name, missing columns NULL); UPDATE rewrites exactly the SET columns of exactly the records whose condition is TRUE, from the OLD record, keeping header, row count and order; DELETE = filter; REPLACE rewrites each existing record from its first key-equivalent given row and appends the rows no record matched first, in the given order; ADD/DROP/RENAME touch only the named columns; the reported count = inserted / matched / removed; rectangularity is preserved by every statement; folding the per-statement specifications over any statement history equals folding the implementation model. Model tied to /repo by a differential correspondence through the real processor: statement sequences (<= 30, state carried) over file-backed and temporary tables, SELECT * and the logged count compared after EVERY statement, plus frame / count laws computed on the implementation's own before/after tables with the matched set obtained by a separate real SELECT",
     "design_ref": "DESIGN.md section 5, C05",
-    "note": "trusted: Lean kernel; harness + driver (its tiny expression language is evaluated with C06's comparison / arithmetic model on coercion profiles reported by the real value.To* functions); column names compared exactly (generators use distinct lower-case identifiers); REPLACE's key equivalence is a parameter of the theorems (the driver uses C07's SortVal.equiv); multi-table UPDATE/DELETE are modelled per target table over the filtered cross join (when two different errors are possible in one statement only the success/failure is modelled faithfully, the generators inject one fault per statement); stdin-backed tables are not generated",
+    "note": "trusted: Lean kernel; harness + driver (its tiny expression language is evaluated with C06's comparison / arithmetic model on coercion profiles reported by the real value.To* functions); column names compared exactly (generators use distinct lower-case identifiers); REPLACE's key equivalence is a parameter of the theorems (the driver uses C07's SortVal.equiv); multi-table UPDATE/DELETE: the new tables are computed per target table over the filtered cross join, the reported error by a row-major scan in the order of the Go loop; stdin-backed tables are not generated",
     "technique": "Lean 4 machine-checked proof (refinement of the id-indirected impl model to map/filter specifications, frame theorems, history fold) + differential correspondence with the Go implementation",
 }
 
